@@ -16,22 +16,29 @@ from harness.common import NCPU, Ctx, Machinery, run_tlc
 TOL = 1e-9
 
 
-def write_cfg(ctx: Ctx, n: int, mems, shard_n: int, shard_k: int) -> str:
+FULL = {"kinds": ["free", "lo", "hi", "box", "fix"], "xs": [0, 1, 2, 3], "g": "full"}
+
+
+def write_cfg(ctx: Ctx, n: int, mems, shard_n: int, shard_k: int, sub=None) -> str:
+    sub = sub or FULL
     p = ctx.tmp / f"MCKernels_{n}_{shard_k}of{shard_n}.cfg"
+    kinds = ", ".join(f'"{k}"' for k in sub["kinds"])
     with open(p, "w") as fh:
         fh.write("SPECIFICATION Spec\nCONSTANTS\n"
                  f"  N = {n}\n  Mems = {{{', '.join(map(str, mems))}}}\n"
-                 f"  ShardN = {shard_n}\n  ShardK = {shard_k}\nINVARIANT DesignClaimsHold\n")
+                 f"  ShardN = {shard_n}\n  ShardK = {shard_k}\n"
+                 f"  KindNames = {{{kinds}}}\n  XSet = {{{', '.join(map(str, sub['xs']))}}}\n"
+                 f"  GSel = \"{sub['g']}\"\nINVARIANT DesignClaimsHold\n")
     return str(p)
 
 
-def enumerate_lattice(ctx: Ctx, n: int, mems, shards: int | None = None, var_sub: str | None = None):
+def enumerate_lattice(ctx: Ctx, n: int, mems, shards: int | None = None, sub=None):
     """Run the design check over the lattice (sharded over processes) and collect the records."""
     shards = shards or (1 if n == 1 else NCPU)
     records: list[dict] = []
 
     def one(k):
-        cfg = write_cfg(ctx, n, mems, shards, k)
+        cfg = write_cfg(ctx, n, mems, shards, k, sub)
         return run_tlc(ctx, f"lattice n={n} shard {k}/{shards}", "MCKernels", cfg, workers=1,
                        timeout=3000, record=False, heap="3g")
 
